@@ -1,5 +1,5 @@
 ENGINES = [
-    dict(name="pyvc", path="pyvc/", serves_properties=["C17"],
+    dict(name="pyvc", path="pyvc/", serves_properties=["C17", "C14"],
          kind_free_text="E1: AST -> verification-condition generator / symbolic executor over the real source text of /repo, sidecar contracts, z3 (cvc5 fall-back)"),
     dict(name="tabinv", path="tabinv/", serves_properties=[],
          kind_free_text="E2: exact-arithmetic ground obligations on the coefficient tables dumped from the imported classes"),
@@ -17,4 +17,13 @@ CHECKS = {
                 technique="contracts + loop invariants on the real AST, VCs discharged by z3 (LIA + arrays + NRA)",
                 design_ref="DESIGN.md section 4 C17"),
 }
+CHECKS["C14"] = dict(level="proof", engine="pyvc",
+    text="brentsroot and brentsrootvec (element-wise lifted; callable and list front ends; tol given / None) are verified against the property's clauses "
+         "for every function f (uninterpreted), bracket order and tolerance: bracket invariant, P1 inside bracket, P2 located sign change on the convergence exit, "
+         "P4 meaning of success, P5 success under a sign change at any scale, P6 no false success, iteration-cap variant, and P7 scalar/vector agreement as a lock-step "
+         "relational proof (initial states, one iteration, exit decisions). The scalar early exit (inf, False) is a recorded known finding (F10a).",
+    note="floats as reals (A1) - the float side (float32, scales 1e-6..1e9) is only exercised by the bounded native family, labelled bounded; the interpolated point s is abstracted "
+         "to an arbitrary real in the contract proofs; 'within tol' is proved for the convergence exit, on the 64-iteration cap exit only 'sign change between the returned end points'; A4 lifting",
+    technique="contracts + loop invariants + relational lock-step on the real AST, VCs discharged by z3 (NRA + UF)",
+    design_ref="DESIGN.md section 4 C14")
 NOT_APPLICABLE = {}
